@@ -299,7 +299,7 @@ func checkC19(c c19Case) verdict {
 		var status int
 		var rb []byte
 		var err error
-		if h.KeepAlive && len(body) <= 1<<16 && len(h.Path) < 200 && h.Path != "*" && !strings.ContainsAny(h.Path, "%\x00 ") {
+		if h.KeepAlive && len(body) <= 1<<17 && len(h.Path) < 200 && h.Path != "*" && !strings.ContainsAny(h.Path, "%\x00 ") {
 			// the same hostile request on a reused connection (what follows it on that connection must still work)
 			labels = append(labels, "keep-alive")
 			r := sv.do(h.Method, h.Path, body, false, 5*time.Second)
@@ -453,7 +453,7 @@ func drawHostile(t *rapid.T) hostileReq {
 		h.Path = postEndpoints[h.Ep]
 		h.Value = rapid.SampledFrom([]string{"  ", "\t", "OCRA-1:HOTP-SHA1-6:QN08", "OCRA-1:HOTP-SHA512-8:QH10", "nonsense", ""}).Draw(t, "rawSuite")
 	case "big-string":
-		h.Size = rapid.SampledFrom([]int{1000, 65536, 1<<20 - 300, 1<<20 - 40, 1 << 20, 1<<20 + 1, 1<<20 + 5000}).Draw(t, "size")
+		h.Size = rapid.SampledFrom([]int{1000, 8000, 8300, 20000, 65536, 1<<20 - 300, 1<<20 - 40, 1 << 20, 1<<20 + 1, 1<<20 + 5000}).Draw(t, "size")
 		strs := []string{}
 		for _, f := range fields {
 			if fieldTypes[h.Ep][f] == "s" {
